@@ -218,6 +218,36 @@ func extractProxy(repo string, o *out) {
 	}
 	o.emit("writer_closes_before_deregistering", "", "bool", first, "true", "", "")
 
+	// replace_stops_the_old_proxy: AddOrReplace stops the proxy it replaces by a statement directly in the "exists" branch (after the
+	// differs test), before the replacement is started or filed - whatever the replacement's listen address and enabled flag are
+	rep := ""
+	if fd := p.method("ProxyCollection", "AddOrReplace"); fd != nil && fd.Body != nil {
+		stopAt, startAt, fileAt := -1, -1, -1
+		for _, st := range fd.Body.List {
+			switch x := st.(type) {
+			case *ast.IfStmt:
+				cond := show(fs, x.Cond)
+				if x.Init != nil && strings.Contains(show(fs, x.Init), ".proxies[") {
+					for _, in := range x.Body.List {
+						if es, ok := in.(*ast.ExprStmt); ok && strings.HasSuffix(show(fs, es.X), ".Stop()") {
+							stopAt = int(es.Pos())
+						}
+					}
+				} else if cond == "start" && startAt < 0 {
+					startAt = int(x.Pos())
+				}
+			case *ast.AssignStmt:
+				if len(x.Lhs) == 1 && strings.Contains(show(fs, x.Lhs[0]), ".proxies[") && fileAt < 0 {
+					fileAt = int(x.Pos())
+				}
+			}
+		}
+		if startAt >= 0 && fileAt >= 0 {
+			rep = boolS(stopAt >= 0 && stopAt < startAt && stopAt < fileAt)
+		}
+	}
+	o.emit("replace_stops_the_old_proxy", "", "bool", rep, "true", "", "")
+
 	stopOrder := ""
 	if fd := p.method("", "stop"); fd != nil && fd.Body != nil {
 		kill := pos(fd.Body, func(s string) bool { return strings.HasPrefix(s, "proxy.tomb.Kill") })
